@@ -307,5 +307,76 @@ class Gen:
         return body
 
 
+class GenF(Gen):
+    """the fragment plus functions: declarations (recursive ones included), anonymous functions, calls, `return`"""
+    FTYPES = [INT, FLOAT, BOOL, STR, arr(INT), multi(INT, FLOAT), multi(INT, STR), VOID]
+
+    def fn_body(self, params, rt, env, d, noise, self_name=None):
+        """statements of a function body that (mostly) returns a value of `rt` on every path"""
+        r = self.rnd
+        benv = [(n, t) for n, t in params][::-1] + [(n, t) for n, t in env if n not in [p[0] for p in params]]
+        out = []
+        for _ in range(r.randint(0, 2)):
+            t = r.choice(self.TYPES)
+            x = r.choice(["x", "y", "z"])
+            out.append(("set", x, self.ftyped(t, benv, d, noise)))
+            benv = [(x, t)] + [(n, tt) for n, tt in benv if n != x]
+        if d > 0 and r.random() < 0.4:
+            # an early return in a branch
+            out.append(("if", self.ftyped(BOOL, benv, d - 1, noise), ("block", [("return", self.ftyped(rt, benv, d - 1, noise) if rt != VOID or r.random() < 0.5 else None)]), None))
+        k = r.random()
+        if k < 0.75:
+            out.append(("return", self.ftyped(rt, benv, d, noise) if (rt != VOID or r.random() < 0.5) else None))
+        elif k < 0.85 and d > 0:
+            out.append(("if", self.ftyped(BOOL, benv, d - 1, noise), ("block", [("return", self.ftyped(rt, benv, d - 1, noise))]),
+                        ("block", [("return", self.ftyped(rt, benv, d - 1, noise))])))
+        else:
+            out.append(self.ftyped(rt, benv, d, noise))          # no return at all: MissingReturn unless rt admits ()
+        return out
+
+    def ftyped(self, ty, env, d, noise=0.08):
+        r = self.rnd
+        fns = [(n, t) for n, t in env if t[0] == "fn" and (t[2] == ty)]
+        if d > 0 and fns and r.random() < 0.3:
+            n, t = r.choice(fns)
+            args = [self.ftyped(p, env, d - 1, noise) for p in t[1]]
+            if r.random() < noise:
+                args = args[:-1] if args and r.random() < 0.5 else args + [self.ftyped(INT, env, 0, noise)]
+            return ("call", V(n), args)
+        if d > 0 and r.random() < 0.06 and ty in self.FTYPES:
+            # an anonymous function called on the spot
+            ps = [(r.choice(["a", "b", "pi"]), r.choice(self.FTYPES[:5])) for _ in range(r.randint(0, 2))]
+            ps = list({n: (n, t) for n, t in ps}.values())
+            f = ("fn", ps, ty, self.fn_body(ps, ty, env, d - 1, noise))
+            return ("call", f, [self.ftyped(t, env, d - 1, noise) for _, t in ps])
+        return self.typed(ty, env, d, noise)
+
+    def typed(self, ty, env, d, noise=0.08):
+        # route the sub-expressions of the base generator through `ftyped` so that calls appear everywhere
+        if getattr(self, "_in", 0) == 0 and d > 0 and self.rnd.random() < 0.25:
+            self._in = 1
+            try:
+                return self.ftyped(ty, env, d, noise)
+            finally:
+                self._in = 0
+        return Gen.typed(self, ty, env, d, noise)
+
+    def fprogram(self, depth=3, noise=0.08):
+        r = self.rnd
+        env = [(n, t) for n, t, _ in FREE]
+        out = []
+        for _ in range(r.randint(1, 3)):
+            fname = r.choice(["f", "g", "h"])
+            ps = [(r.choice(["a", "b", "c", "pi"]), r.choice(self.FTYPES[:6])) for _ in range(r.randint(0, 3))]
+            ps = list({n: (n, t) for n, t in ps}.values())
+            rt = r.choice(self.FTYPES)
+            ft = ("fn", tuple(t for _, t in ps), rt)
+            body_env = [(fname, ft)] + [(n, t) for n, t in env if n != fname]
+            out.append(("fndecl", fname, ps, rt, self.fn_body(ps, rt, body_env, depth - 1, noise, fname)))
+            env = body_env
+        blk = self.tblock(r.choice(self.TYPES), env, depth, noise)
+        return out + blk[1]
+
+
 def prelude():
     return [("set", n, ("pre", "deref", ("mut", t, v))) for n, t, v in FREE]
